@@ -26,6 +26,7 @@ RULE = ('(a) exhaustive: all 4096 modifier subsets on 3 values, predicted by '
 RULE += (
          'Also: upper-case and further C-style conversions (X, E, G, '
          'F, o, i, c). ')
+RULE += ('Round 8: named formats comma-numeric / url-unquote(-plus) / url-quote-plus modelled; equal values of different type one after the other. ')
 ASSUMPTIONS = [
     'the statement does not say which fixed order the modifiers have: it is '
     'read off pairwise renderings and only its existence, acyclicity and '
